@@ -101,7 +101,13 @@ def worker_init(lane):
             reg = _registry_get(cell_list)
             if exc is not None:
                 rec.call(M_MATCH)
-                rec.violation(M_MATCH, "C16|match|exception|%s" % type(exc).__name__, "matching raised %r" % (exc,), {})
+                cellv = system.get_cell().array
+                if abs(np.linalg.det(cellv)) < 1e-12:
+                    # degenerate (zero-vector) cells are in the stated domain of the extended system only
+                    rec.ood(M_MATCH); rec.note("match_exception_on_singular_cell:%s" % type(exc).__name__)
+                    return
+                rec.violation(M_MATCH, "C16|match|exception|%s" % type(exc).__name__, "matching raised %r" % (exc,),
+                              geom.structure_witness(system.get_positions(), cellv, system.get_pbc()))
                 return
             if reg is None:
                 rec.call(M_MATCH); rec.ood(M_MATCH); return
